@@ -149,7 +149,7 @@ def gen_cases(tier, seed):
         noise = r.choice([[], [], [], ["--fsync"], ["--backup", "numbered"], ["--no-perms"], ["-L"], ["--gitignore"], ["--no-progress"], ["--reflink", "never"]])
         if cls in ("bad-backup", "bad-reflink") and noise and noise[0] in ("--backup", "--reflink"):
             noise = []
-        wopt = [] if cls == "bad-workers" else ["-w", str(r.choice([1, 4]))]
+        wopt = [] if cls == "bad-workers" else ["-w", str(r.choice([0, 1, 4]))]
         args = drv + wopt + opts + noise + srcs + ([dest] if dest is not None else [])
         yield {"spec": spec, "pre": pre, "args": args, "driver": driver, "cls": cls, "pos": pos if cls in ("missing-source", "dir-without-r", "dir-onto-file-mapped", "bad-glob") else -1,
                "nsrc": len(srcs), "dstate": dstate, "fs": "ext4"}
